@@ -18,12 +18,11 @@
                                     keys, to-side in the domain `fkOK` of FixedKeyDictNodeEdit's static upper bound
                                     (outside it the statements are FALSE: finding D24, NOTES_C05).  The result of
                                     finishing after any history, for both values of `quiet`, is L2's `edits` itself.
-     *_no_multiset                  the same for every machine without MultiSetEdit that satisfies the structural
-                                    invariant `invG` (leaves, key/value pairs, string edits, positional lists,
-                                    fixed-key dictionaries with their lazily expanded EditCollection, EditDistance)
-     *_partial                      over MultiSetEdit atoms that obey the protocol (`AtomHyp`, `EditsHyp`)
-  MISSING: the atom class `ms` (MultiSetEdit + matcher; validated by the `history`/`trace` streams against the real
-  code, and L2 by the `script` stream).
+     *_every_machine                the same for EVERY machine (all seven classes, incl. MultiSetEdit + matcher) that
+                                    satisfies the structural invariant `invG`, for every `make_distinct` oracle
+  MISSING for DictNode documents: that the fresh MultiSetEdit `mkMs` satisfies the invariant (admissibility of the
+  recorded solver answers) and its L3→L2 link to `msScript`; validated by the `history`/`trace` streams against the
+  real code, and L2 by the `script` stream.
 -/
 import GtModel.Props.C04
 import GtModel.Proofs.LazyEd
@@ -33,14 +32,14 @@ namespace GtModel.C05
 open GtModel.Lazy
 
 /-- any sequence of public operations on a machine satisfying the invariant succeeds -/
-theorem no_internal_error_partial (q : Bool) (F : Nat) (hF : 0 < F) (a : Ghost) (hA : AtomHyp q F a)
+theorem no_internal_error_of_hyp (q : Bool) (F : Nat) (hF : 0 < F) (a : Ghost) (hA : AtomHyp q F a)
     (hE : EditsHyp q F a) (n : Nat) (m : M) (hI : (G a F (n + 1)).I m) (hμ : muG a m < F) (ops : List Op) (e : Err) :
     run q F n m ops ≠ .error e := by
   obtain ⟨m', rs, h, _⟩ := run_ok q F hF a hA hE n ops m hI hμ
   rw [h]; intro hc; cases hc
 
 /-- every `bounds()` result of a run is contained in the previous one and contains the final cost -/
-theorem observations_nested_partial (q : Bool) (F : Nat) (hF : 0 < F) (a : Ghost) (hA : AtomHyp q F a)
+theorem observations_nested_of_hyp (q : Bool) (F : Nat) (hF : 0 < F) (a : Ghost) (hA : AtomHyp q F a)
     (hE : EditsHyp q F a) (n : Nat) (m : M) (hI : (G a F (n + 1)).I m) (hμ : muG a m < F) (ops : List Op) :
     ∃ m' rs, run q F n m ops = .ok (m', rs) ∧ Nested (finG a m) (viewG a m) rs :=
   let ⟨m', rs, h, _, hn⟩ := run_ok q F hF a hA hE n ops m hI hμ
@@ -48,7 +47,7 @@ theorem observations_nested_partial (q : Bool) (F : Nat) (hF : 0 < F) (a : Ghost
 
 /-- finishing after ANY history gives the same script (with its costs) as finishing the fresh machine, for any
     two settings `q1`, `q2` of the quiet flag -/
-theorem history_independent_partial (q1 q2 : Bool) (F : Nat) (hF : 0 < F) (a : Ghost) (hA1 : AtomHyp q1 F a)
+theorem history_independent_of_hyp (q1 q2 : Bool) (F : Nat) (hF : 0 < F) (a : Ghost) (hA1 : AtomHyp q1 F a)
     (hA2 : AtomHyp q2 F a) (hE : EditsHyp q1 F a) (n : Nat) (m : M) (hI : (G a F (n + 1)).I m) (hμ : muG a m < F)
     (ops : List Op) :
     ∃ m1 rs m2 m3, run q1 F n m ops = .ok (m1, rs) ∧ finish q1 F n m1 = .ok (m2, scriptG a m) ∧
@@ -65,22 +64,22 @@ theorem noAtoms_edits (q : Bool) (F : Nat) : EditsHyp q F C04.noAtoms := by
   intro n _ m hI ha
   cases m <;> simp [isAtom] at ha <;> exact hI.1.elim
 
-/-- unconditional, every machine without MultiSetEdit (const, kvp, str, fixed, coll, ed) -/
-theorem no_internal_error_no_multiset (q : Bool) (F : Nat) (hF : 0 < F) (n : Nat) (m : M)
+/-- unconditional, EVERY machine (const, kvp, str, fixed, coll, ed, ms) satisfying the structural invariant -/
+theorem no_internal_error_every_machine (q : Bool) (F : Nat) (hF : 0 < F) (n : Nat) (m : M)
     (hI : (G C04.noAtoms F (n + 1)).I m) (hμ : muG C04.noAtoms m < F) (ops : List Op) (e : Err) :
     run q F n m ops ≠ .error e :=
-  no_internal_error_partial q F hF C04.noAtoms (C04.noAtoms_hyp q F) (noAtoms_edits q F) n m hI hμ ops e
+  no_internal_error_of_hyp q F hF C04.noAtoms (C04.noAtoms_hyp q F) (noAtoms_edits q F) n m hI hμ ops e
 
-theorem observations_nested_no_multiset (q : Bool) (F : Nat) (hF : 0 < F) (n : Nat) (m : M)
+theorem observations_nested_every_machine (q : Bool) (F : Nat) (hF : 0 < F) (n : Nat) (m : M)
     (hI : (G C04.noAtoms F (n + 1)).I m) (hμ : muG C04.noAtoms m < F) (ops : List Op) :
     ∃ m' rs, run q F n m ops = .ok (m', rs) ∧ Nested (finG C04.noAtoms m) (viewG C04.noAtoms m) rs :=
-  observations_nested_partial q F hF C04.noAtoms (C04.noAtoms_hyp q F) (noAtoms_edits q F) n m hI hμ ops
+  observations_nested_of_hyp q F hF C04.noAtoms (C04.noAtoms_hyp q F) (noAtoms_edits q F) n m hI hμ ops
 
-theorem history_independent_no_multiset (q1 q2 : Bool) (F : Nat) (hF : 0 < F) (n : Nat) (m : M)
+theorem history_independent_every_machine (q1 q2 : Bool) (F : Nat) (hF : 0 < F) (n : Nat) (m : M)
     (hI : (G C04.noAtoms F (n + 1)).I m) (hμ : muG C04.noAtoms m < F) (ops : List Op) :
     ∃ m1 rs m2 m3, run q1 F n m ops = .ok (m1, rs) ∧ finish q1 F n m1 = .ok (m2, scriptG C04.noAtoms m) ∧
       finish q2 F n m = .ok (m3, scriptG C04.noAtoms m) :=
-  history_independent_partial q1 q2 F hF C04.noAtoms (C04.noAtoms_hyp q1 F) (C04.noAtoms_hyp q2 F)
+  history_independent_of_hyp q1 q2 F hF C04.noAtoms (C04.noAtoms_hyp q1 F) (C04.noAtoms_hyp q2 F)
     (noAtoms_edits q1 F) n m hI hμ ops
 
 /-- FULL STATEMENT for the fragment without MultiSetEdit (`f.noDict`, distinct keys, to-side in the domain `fkOK`
@@ -91,7 +90,7 @@ theorem no_internal_error (q : Bool) (o : Opts) (orc : Orc) (f t : Tree) (hf : f
     (hkt : t.KeysDistinct) (ht : t.fkOK = true) (F n : Nat) (hF : muG C04.noAtoms (mkEdit o orc [] [] f t) < F)
     (hn : height (mkEdit o orc [] [] f t) ≤ n + 1) (ops : List Op) (e : Err) :
     run q F n (mkEdit o orc [] [] f t) ops ≠ .error e :=
-  no_internal_error_no_multiset q F (by omega) n _ (C04.mkEdit_invariant o orc f t hf hkf hkt ht F (n + 1) hF hn) hF ops e
+  no_internal_error_every_machine q F (by omega) n _ (C04.mkEdit_invariant o orc f t hf hkf hkt ht F (n + 1) hF hn) hF ops e
 
 /-- every interval observed during any run on `from.edits(to)` lies in the previous one, starting from the initial
     bounds, and contains the final cost -/
@@ -100,7 +99,7 @@ theorem observations_nested (q : Bool) (o : Opts) (orc : Orc) (f t : Tree) (hf :
     (hn : height (mkEdit o orc [] [] f t) ≤ n + 1) (ops : List Op) :
     ∃ m' rs, run q F n (mkEdit o orc [] [] f t) ops = .ok (m', rs) ∧
       Nested (finG C04.noAtoms (mkEdit o orc [] [] f t)) (initIv (mkEdit o orc [] [] f t)) rs := by
-  have := observations_nested_no_multiset q F (by omega) n _
+  have := observations_nested_every_machine q F (by omega) n _
     (C04.mkEdit_invariant o orc f t hf hkf hkt ht F (n + 1) hF hn) hF ops
   rwa [(C04.mkEdit_initial_bounds o orc f t hf hkf hkt ht).1] at this
 
@@ -113,7 +112,7 @@ theorem history_independent (q1 q2 : Bool) (o : Opts) (orc : Orc) (f t : Tree) (
     ∃ m1 rs m2 m3, run q1 F n (mkEdit o orc [] [] f t) ops = .ok (m1, rs) ∧
       finish q1 F n m1 = .ok (m2, scriptG C04.noAtoms (mkEdit o orc [] [] f t)) ∧
       finish q2 F n (mkEdit o orc [] [] f t) = .ok (m3, scriptG C04.noAtoms (mkEdit o orc [] [] f t)) :=
-  history_independent_no_multiset q1 q2 F (by omega) n _
+  history_independent_every_machine q1 q2 F (by omega) n _
     (C04.mkEdit_invariant o orc f t hf hkf hkt ht F (n + 1) hF hn) hF ops
 
 /-- L3 → L2 refinement: the ghost script and final cost of the fresh machine are L2's `edits` (as the harness dumps
@@ -162,12 +161,12 @@ theorem editDistance_fresh_J (ps : Nat × Nat) (fs ts : List Nat) (pen : Nat) : 
 /-! non-vacuity: the machines of C04's examples (a nested positional list edit; a lazily expanded fixed-key
     dictionary edit), any operation sequence, loops bounded by 9 iterations -/
 example (ops : List Op) (e : Err) : run false 9 9 C04.exampleMachine ops ≠ .error e :=
-  no_internal_error_no_multiset false 9 (by omega) 9 C04.exampleMachine
+  no_internal_error_every_machine false 9 (by omega) 9 C04.exampleMachine
     (by simp [C04.exampleMachine, G, invG, invL, height, heightL])
     (by simp [C04.exampleMachine, muG, muL, viewL, viewG, Iv.add, Iv.point]) ops e
 
 example (ops : List Op) (e : Err) : run true 40 9 C04.exampleDict ops ≠ .error e :=
-  no_internal_error_no_multiset true 40 (by omega) 9 C04.exampleDict
+  no_internal_error_every_machine true 40 (by omega) 9 C04.exampleDict
     (by simp [C04.exampleDict, G, invG, invL, height, heightL, muL, muG, HiLe, viewOnly, viewG, Iv.add, Iv.point])
     (by simp [C04.exampleDict, muG, muL, viewL, viewG, decL, Iv.add, Iv.point]) ops e
 
